@@ -81,5 +81,113 @@ func vNameStartByte(c byte) bool {
 //@   requires tk != nil
 //@   modifies tk.pos
 //@   ensures old(tk.pos) <= tk.pos
+//@   let p0 = old(tk.pos)
+//@   ensures[progress] p0 < len(tk.src) && (vNameStartByte(tk.src[p0]) || tk.src[p0] == '-' || (tk.src[p0] == '\\' && !(p0 + 1 < len(tk.src) && tk.src[p0+1] == '\n'))) ==> p0 < tk.pos
 //@   loop 1 invariant old(tk.pos) <= startPos && startPos <= tk.pos && tk.pos <= L && L == len(tk.src)
 //@   loop 1 decreases L - tk.pos
+
+//@ func (*tokenizer).consumeUnicodeRange
+//@   props C06 C07 C01
+//@   nopanic
+//@   requires tk != nil
+//@   modifies tk.pos
+//@   ensures old(tk.pos) <= tk.pos && tk.pos <= old(tk.pos) + 13
+//@   loop 1 invariant old(tk.pos) <= tk.pos && tk.pos <= maxPos && maxPos <= length && length == len(tk.src) && maxPos <= old(tk.pos) + 6 && startPos == old(tk.pos)
+//@   loop 1 decreases maxPos - tk.pos
+//@   loop 2 invariant old(tk.pos) <= tk.pos && tk.pos <= maxPos && maxPos <= length && length == len(tk.src) && maxPos <= old(tk.pos) + 6 && questionMarks >= 0 && startPos == old(tk.pos)
+//@   loop 2 decreases maxPos - tk.pos
+//@   loop 3 invariant old(tk.pos) <= startPos && startPos <= tk.pos && tk.pos <= maxPos && maxPos <= length && length == len(tk.src) && maxPos <= old(tk.pos) + 13
+//@   loop 3 decreases maxPos - tk.pos
+
+//@ func (*tokenizer).consumeQuotedString
+//@   props C06 C07 C01
+//@   nopanic
+//@   requires tk != nil && tk.pos < len(tk.src)
+//@   modifies tk.pos
+//@   ensures old(tk.pos) < tk.pos
+//@   loop 1 invariant old(tk.pos) < startPos && startPos <= tk.pos && tk.pos <= L && L == len(tk.src)
+//@   loop 1 decreases L - tk.pos
+
+//@ func eofInURL
+//@   props C06 C07
+//@   nopanic
+
+// consumeUrl never drops the token silently: it returns a URL or a ParseError.
+//@ func (*tokenizer).consumeUrl
+//@   props C06 C07 C01
+//@   nopanic
+//@   requires tk != nil
+//@   modifies tk.pos
+//@   ensures old(tk.pos) <= tk.pos
+//@   ensures result0 != nil || result1 != nil
+//@   loop 1 invariant old(tk.pos) <= tk.pos && tk.pos <= L && L == len(tk.src)
+//@   loop 1 decreases L - tk.pos
+//@   loop 2 invariant old(tk.pos) <= startPos && startPos <= tk.pos && tk.pos <= L && L == len(tk.src)
+//@   loop 2 decreases L - tk.pos
+//@   loop 3 invariant old(tk.pos) <= tk.pos && tk.pos <= L && L == len(tk.src)
+//@   loop 3 decreases L - tk.pos
+//@   loop 4 invariant old(tk.pos) <= tk.pos && tk.pos <= L && L == len(tk.src)
+//@   loop 4 decreases L - tk.pos
+
+//@ func (*tokenizer).tryConsumeUnicodeRune
+//@   props C06 C07 C01
+//@   nopanic
+//@   requires tk != nil && tk.pos < len(tk.src)
+//@   modifies tk.pos
+//@   ensures result1 ==> old(tk.pos) < tk.pos && result0 != nil
+//@   ensures !result1 ==> tk.pos == old(tk.pos)
+
+//@ func newFlag
+//@   props C06 C07
+//@   nopanic
+
+//@ func (*tokenizer).tryConsumeNumber
+//@   props C06 C07 C01
+//@   nopanic
+//@   requires tk != nil
+//@   modifies tk.pos
+//@   ensures result != nil ==> old(tk.pos) < tk.pos
+//@   ensures result == nil ==> tk.pos == old(tk.pos)
+
+//@ func (*tokenizer).tryConsumeHash
+//@   props C06 C07 C01
+//@   nopanic
+//@   requires tk != nil
+//@   modifies tk.pos
+//@   ensures old(tk.pos) <= tk.pos
+//@   ensures !result1 ==> tk.pos == old(tk.pos)
+
+//@ func (*tokenizer).consumeDelimOrLitteral
+//@   props C06 C07 C01
+//@   nopanic
+//@   requires tk != nil && tk.pos < len(tk.src)
+//@   modifies tk.pos
+//@   ensures old(tk.pos) < tk.pos
+
+//@ func (*tokenizer).updateLine
+//@   props C06 C07 C01
+//@   nopanic
+//@   requires tk != nil
+//@   modifies tk.line, tk.lineIndex, tk.previousPos
+//@   ensures tk.previousPos == tk.pos
+
+// A value list ends at the end of the input or just after its closing delimiter:
+// nothing of a nested construct leaks into the enclosing one (exact consumption).
+//@ func (*tokenizer).consumeValueList
+//@   props C06 C07 C01
+//@   nopanic
+//@   requires tk != nil
+//@   modifies tk.pos, tk.line, tk.lineIndex, tk.previousPos
+//@   decreases len(tk.src) - tk.pos
+//@   ensures old(tk.pos) <= tk.pos
+//@   ensures[exact] tk.pos == len(tk.src) || (endChar != 0 && tk.pos > old(tk.pos) && tk.src[tk.pos-1] == endChar)
+//@   loop 1 invariant L == len(tk.src) && old(tk.pos) <= tk.pos && tk.pos <= L && 0 <= tk.previousPos && tk.previousPos <= tk.pos && fresh(out)
+//@   loop 1 decreases L - tk.pos
+//@   loop 2 invariant 0 <= urlPos
+//@   loop 2 decreases L - urlPos
+
+// Tokenize never fails and consumes its whole input.
+//@ func Tokenize
+//@   props C06 C07 C01
+//@   nopanic
+//@   modifies nothing
